@@ -76,6 +76,11 @@ def units(ctx, prop):
                     us.append(("rect", prop, spec, 2, sc, st, ctx.seed, ctx.thorough))
                 if prop == "C09":
                     us.append(("rect", prop, spec, 2, sc, 0, ctx.seed, ctx.thorough, 1))  # far translation (numpy predicate)
+        # every rung of the scale ladder is visited on every run: the rungs the seed did not select get a reduced
+        # cone family (absolute-threshold shortcuts - "boxes this small are points" - show only on one rung)
+        for sc in [s_ for s_ in lattice.SCALES if s_ not in scs]:
+            for spec in [("comp", 2), ("theta", 60), ("theta", 135)]:
+                us.append(("rect", prop, spec, 2, sc, 0, ctx.seed, ctx.thorough))
         for spec in fam3:
             us.append(("rect", prop, spec, 3, scs[0], 0, ctx.seed, ctx.thorough))
         # ellipsoids (2-D): K SOCPs per call -> smaller family in quick
@@ -85,6 +90,10 @@ def units(ctx, prop):
         for sc in scs:
             for spec in efam:
                 for sh1 in range(len(ELL_SHAPES)):
+                    us.append(("ell", prop, spec, sc, sh1, ctx.seed, ctx.thorough))
+        for sc in [s_ for s_ in lattice.SCALES if s_ not in scs]:  # the other rungs, reduced family
+            for spec in [("comp", 2), ("theta", 135)]:
+                for sh1 in (0, 3):
                     us.append(("ell", prop, spec, sc, sh1, ctx.seed, ctx.thorough))
         us.append(("errors", prop))
         for spec in [("comp", 2), ("theta", 60), ("theta", 135)]:
@@ -101,6 +110,9 @@ def units(ctx, prop):
                 for st in range(len(STRETCH)):
                     us.append(("pess", prop, spec, 2, sc, st, ctx.seed, ctx.thorough, 0))
                     us.append(("pess", prop, spec, 2, sc, st, ctx.seed, ctx.thorough, 1))
+        for sc in [s_ for s_ in lattice.SCALES if s_ not in scs]:  # the other rungs of the ladder, reduced family
+            for spec in [("comp", 2), ("theta", 60), ("theta", 135)]:
+                us.append(("pess", prop, spec, 2, sc, 0, ctx.seed, ctx.thorough, 0))
         for spec in fam3:
             us.append(("pess", prop, spec, 3, scs[0], 0, ctx.seed, ctx.thorough, 0))
             us.append(("pess", prop, spec, 3, scs[0], 0, ctx.seed, ctx.thorough, 1))
